@@ -69,17 +69,18 @@ type termKey struct {
 
 // TB is a term bank (one per worker; not shared between goroutines).
 type TB struct {
-	tab      map[termKey]*Term
-	nextID   int
-	True     *Term
-	False    *Term
-	nvars    int
-	varsMemo map[int][]int
-	varTerm  map[int]*Term
+	tab       map[termKey]*Term
+	nextID    int
+	True      *Term
+	False     *Term
+	nvars     int
+	varsMemo  map[int][]int
+	varTerm   map[int]*Term
+	rangeMemo map[int]urange
 }
 
 func NewTB() *TB {
-	tb := &TB{tab: map[termKey]*Term{}, varsMemo: map[int][]int{}, varTerm: map[int]*Term{}}
+	tb := &TB{tab: map[termKey]*Term{}, varsMemo: map[int][]int{}, varTerm: map[int]*Term{}, rangeMemo: map[int]urange{}}
 	tb.True = tb.mk(OpConst, 0, nil, nil, nil, 1, "")
 	tb.False = tb.mk(OpConst, 0, nil, nil, nil, 0, "")
 	return tb
@@ -419,6 +420,43 @@ func (tb *TB) Bin(op Op, x, y *Term) *Term {
 		}
 		if y.op == OpZExt && x.IsConst() && sext(x.val, w) < 0 {
 			return tb.True
+		}
+	}
+	switch op {
+	case OpEq, OpULt, OpULe, OpSLt, OpSLe:
+		rx, ry := tb.rangeOf(x), tb.rangeOf(y)
+		half := uint64(1) << uint(w-1)
+		uop := op
+		if (op == OpSLt || op == OpSLe) && rx.hi < half && ry.hi < half {
+			// both non-negative: signed comparison is the unsigned one
+			if op == OpSLt {
+				uop = OpULt
+			} else {
+				uop = OpULe
+			}
+		}
+		switch uop {
+		case OpEq:
+			if rx.hi < ry.lo || ry.hi < rx.lo {
+				return tb.False
+			}
+		case OpULt:
+			if rx.hi < ry.lo {
+				return tb.True
+			}
+			if rx.lo >= ry.hi {
+				return tb.False
+			}
+		case OpULe:
+			if rx.hi <= ry.lo {
+				return tb.True
+			}
+			if rx.lo > ry.hi {
+				return tb.False
+			}
+		}
+		if uop != op {
+			return tb.mk(uop, rw, x, y, nil, 0, "")
 		}
 	}
 	return tb.mk(op, rw, x, y, nil, 0, "")
